@@ -42,6 +42,11 @@ theorem gen_get_checks_queue_first : Gen.RecvProg.get.take 4 = [GI.acquire, GI.s
 theorem gen_get_under_lock :
     ∀ p ∈ lockedFlags (· == GI.acquire) (· == GI.release) Gen.RecvProg.get false, p.1 ≠ GI.acquire → p.2 = true := by decide
 
+/-- OBLIGATION: the capacity the full-queue test of `_receive_signal` compares with (`self._max_queue_length`) is the
+same quantity as the bound of the deque (`deque(maxlen=…)`): one expression of the constructor, re-bound nowhere — the
+model's single `cap` stands for both -/
+theorem gen_full_check_is_maxlen : Gen.RecvProg.capTied = true := by decide
+
 /-- OBLIGATION (the code as it is): in a task thread the helper waits for `predicate or stop flag` and then gives the stop
 flag priority over the result; in a plain thread it is `cond.wait_for(predicate, timeout)` -/
 theorem gen_wait_helpers :
